@@ -161,6 +161,41 @@ def c06(tier):
                     continue
                 seen.add(key)
                 verdict.violation(['C06/session/%s' % mm['what'], 'form:' + cek.form_text(sess, mm['form'])], cek.describe(sess, mm), cek.replay_obj(sess, mm))
+    # macro definitions and uses: the expander is a Rust-level loop inside prepare_eval, which no instruction budget
+    # interrupts; generated transformers (nested ellipses, tails after ellipses, improper and vector patterns,
+    # templates that are rejected or must be rejected) and their uses run in watched worker processes
+    # (harness synrules gen); a panic or a time-out of definition or use is a violation of totality
+    nmac = 300 if q else 20000
+    mout = os.path.join(wd, 'macros.ndjson')
+    pm = vlib.harness(['synrules', 'gen', 'seed=%d' % (vlib.seed() + 77), 'count=%d' % nmac, 'out=' + mout, 'timeout_ms=3000'],
+                      check=False, timeout=3000)
+    macro_bad = 0
+    macro_n = 0
+    if pm.returncode != 0:
+        verdict.violation(['C06/macro-expansion/abort'], 'the harness died while defining and using generated macros (rc=%s)' % pm.returncode,
+                          {'kind': 'macros', 'seed': vlib.seed() + 77, 'count': nmac})
+    else:
+        seen_m = set()
+        for l in open(mout):
+            l = l.strip()
+            if not l:
+                continue
+            j = json.loads(l)
+            macro_n += 1
+            for which in ('dr', 'ur'):
+                r = j.get(which, {}).get('r')
+                if r in ('panic', 'timeout'):
+                    macro_bad += 1
+                    key = (which, r, str(j.get(which, {}).get('msg', ''))[:40])
+                    if key in seen_m:
+                        continue
+                    seen_m.add(key)
+                    verdict.violation(['C06/macro-expansion/%s/%s' % ('definition' if which == 'dr' else 'use', r),
+                                       'case:' + ' '.join(j.get('text', []))[:400]],
+                                      '%s of a macro %s: %s' % ('definition' if which == 'dr' else 'use',
+                                                                'panics' if r == 'panic' else 'does not terminate',
+                                                                ' ; '.join(j.get('text', []))[:400]),
+                                      {'kind': 'macros', 'record': j})
     # text entry points
     ntext = 4000 if q else 300000
     tout = os.path.join(wd, 'texts.ndjson')
@@ -198,7 +233,7 @@ def c06(tier):
                 'evaluation; distinct_nontrivial = number of distinct calls executed' % ('every 3rd' if q else 'completely', ntext),
         'samples': samples or [{'call': '(car zp1)'}], 'states': states, 'transitions': states,
         'traces_validated_against_impl': ncalls + ntext, 'procedures': nprocs, 'palette': 34,
-        'outcome_classes_observed': by_class, 'outcomes_more_lenient_than_r7rs_prescribes(not_violations)': lenient, 'allowed_sets_required': by_allow, 'tiers': tiers, 'texts': ntext, 'session_runs_through_the_evaluator': sess_runs,
+        'outcome_classes_observed': by_class, 'outcomes_more_lenient_than_r7rs_prescribes(not_violations)': lenient, 'allowed_sets_required': by_allow, 'tiers': tiers, 'texts': ntext, 'macro_definition_use_pairs': macro_n, 'macro_pairs_with_panic_or_timeout': macro_bad, 'session_runs_through_the_evaluator': sess_runs,
     }, time.time() - t0, len(verdict.new), [
         'TLC/SANY/Json trusted', 'the signature table of Builtins.tla is my reading of R7RS section 6; procedures outside R7RS get the default signature',
         'a call that runs longer than 3 million VM instructions, or a process that makes no progress for 25 s, counts as not terminating',
